@@ -32,7 +32,7 @@ ASSUMPTIONS = ["no faults are injected in this check (see C20)",
                "the `lock` field is excluded: _get_instance_state deliberately externalises it as False",
                "every compared instance has a session when GET /save-state is called"]
 FAULT_KINDS = []
-PROBES = ["loaded_via_timeout", "loaded_via_load_state", "loaded_via_restart", "saved_via_save_state", "compressed_mode",
+PROBES = ["second_session_in_instance", "loaded_via_timeout", "loaded_via_load_state", "loaded_via_restart", "saved_via_save_state", "compressed_mode",
           "step_without_body", "step_with_empty_settings", "nonuniform_settings", "decimal_dt"]
 EXHAUSTIVE = {"quick": False, "thorough": False}
 
@@ -96,6 +96,20 @@ def generate(spec):
                 budget = 0
             else:
                 ops.append({"op": "results"})
+        if rng.random() < 0.3:
+            # a second session in the same instance (other scenario / equations / settings), stepped as
+            # far as the first one or less: the session clock revisits values that were saved before
+            taken = sum((o.get("n", 1) if o["op"] == "steps" else 1) for o in ops if o["op"] in ("step", "steps"))
+            if taken and not any(o["op"] == "stream" for o in ops):
+                scen2 = "alt" if scen == "base" else "base"
+                ops.append({"op": "begin", "scenarios": [scen2], "equations": rng.sample(eqs, rng.randint(1, len(eqs))),
+                            "settings": _sett(rng, template, scen2) if rng.random() < 0.5 else {}})
+                if rng.random() < 0.5:
+                    # one request that lands exactly on the clock value the first session was last saved at
+                    ops.append({"op": "steps", "n": taken, "settings": rng.choice([{}, _sett(rng, template, scen2)])})
+                else:
+                    for _ in range(rng.choice([taken, taken, max(1, taken - 1)])):
+                        ops.append({"op": "step", "settings": rng.choice([{}, _sett(rng, template, scen2)])})
         if save_route == "auto":
             while ops and ops[-1]["op"] == "results":
                 ops.pop()
@@ -171,6 +185,8 @@ def execute(case):
             ids.append(iid)
             if len(_settings_shapes(inst["ops"])) > 1:
                 res.probe("nonuniform_settings")
+            if sum(1 for o in inst["ops"] if o["op"] == "begin") > 1:
+                res.probe("second_session_in_instance")
             for n, o in enumerate(inst["ops"]):
                 if o["op"] == "begin":
                     r = w.post("/%s/begin-session" % iid, {"scenario_managers": ["smA"], "scenarios": o["scenarios"],
